@@ -89,9 +89,50 @@ def skip_generics(t, p):
     raise Untranslatable("generics")
 
 
+def generic_names(toks):
+    """names of the type parameters in `<A: Bound, B>` (lifetimes are already dropped by the tokenizer)"""
+    out, depth, expect = [], 0, True
+    for x in toks:
+        if x == ("op", "<"):
+            depth += 1
+            if depth == 1:
+                expect = True
+            continue
+        if x in (("op", ">"), ("op", ">>")):
+            depth -= 1 if x[1] == ">" else 2
+            continue
+        if depth == 1 and x == ("op", ","):
+            expect = True
+            continue
+        if depth == 1 and expect and x[0] == "id":
+            out.append(x[1])
+            expect = False
+    return out
+
+
+def split_commas(toks):
+    parts, depth, cur = [], 0, []
+    for x in toks:
+        if x[0] == "op" and x[1] in ("(", "[", "<", "{"):
+            depth += 1
+        elif x[0] == "op" and x[1] in (")", "]", ">", "}"):
+            depth -= 1
+        elif x == ("op", ">>"):
+            depth -= 2
+        if depth == 0 and x == ("op", ","):
+            parts.append(cur)
+            cur = []
+        else:
+            cur.append(x)
+    if cur:
+        parts.append(cur)
+    return [[y for y in p if y != ("id", "pub")] for p in parts]
+
+
 class FnItem:
     def __init__(self, name, owner, params, ret, body):
         self.name, self.owner, self.params, self.ret, self.body = name, owner, params, ret, body
+        self.generics = []
 
 
 class FileIndex:
@@ -104,6 +145,10 @@ class FileIndex:
         self.consts = {}       # name -> (type tokens, expr tokens)
         self.aliases = {}      # name -> type tokens
         self.fns = {}          # (owner or None, name) -> FnItem   (first definition wins)
+        self.tuples = {}       # tuple struct name -> (generic names, [field type tokens])
+        self.enums = {}        # enum name -> (generic names, [(variant, [field type tokens])])
+        self.generics = {}     # struct/enum name -> generic parameter names
+        self.cur_generics = []
         self._scan(0, len(self.toks), None)
 
     def _scan(self, i, end, owner):
@@ -116,14 +161,23 @@ class FileIndex:
             if k == "id" and v == "struct" and owner is None:
                 name = t[i + 1][1]
                 j = i + 2
+                gens = []
                 if t[j] == ("op", "<"):
-                    j = skip_generics(t, j)
+                    j2 = skip_generics(t, j)
+                    gens = generic_names(t[j:j2])
+                    j = j2
+                self.generics[name] = gens
                 if t[j] == ("op", "("):
                     c = match_close(t, j)
                     inner = [x for x in t[j + 1:c] if x != ("id", "pub")]
-                    if len(inner) == 1 and inner[0][0] == "id":
+                    if len(inner) == 1 and inner[0][0] == "id" and inner[0][1] not in gens:
                         self.newtypes[name] = inner[0][1]
+                    self.tuples[name] = (gens, split_commas(inner))
                     i = c + 1
+                    continue
+                if t[j] == ("op", ";"):
+                    self.records[name] = {}             # unit struct
+                    i = j + 1
                     continue
                 if t[j] == ("op", "{"):
                     c = match_close(t, j)
@@ -147,6 +201,30 @@ class FileIndex:
                         else:
                             p += 1
                     self.records[name] = fields
+                    i = c + 1
+                    continue
+            if k == "id" and v == "enum" and owner is None and t[i + 1][0] == "id":
+                name = t[i + 1][1]
+                j = i + 2
+                gens = []
+                if t[j] == ("op", "<"):
+                    j2 = skip_generics(t, j)
+                    gens = generic_names(t[j:j2])
+                    j = j2
+                if t[j] == ("op", "{"):
+                    c = match_close(t, j)
+                    variants = []
+                    for part in split_commas(t[j + 1:c]):
+                        if not part or part[0][0] != "id":
+                            continue
+                        if len(part) == 1:
+                            variants.append((part[0][1], []))
+                        elif part[1] == ("op", "("):
+                            variants.append((part[0][1], split_commas(part[2:-1])))
+                        else:
+                            variants.append((part[0][1], None))       # struct-like variant: outside the subset
+                    self.enums[name] = (gens, variants)
+                    self.generics[name] = gens
                     i = c + 1
                     continue
             if k == "id" and v == "type" and owner is None and t[i + 1][0] == "id" and t[i + 2] == ("op", "="):
@@ -175,14 +253,29 @@ class FileIndex:
                     hdr.append(t[j])
                     j += 1
                 c = match_close(t, j)
-                if ("id", "for") in hdr:
-                    i = c + 1                           # trait impls are not indexed
-                    continue
                 p = 0
+                gens = []
                 if hdr and hdr[0] == ("op", "<"):
                     p = skip_generics(hdr, 0)
-                tyname = hdr[p][1] if p < len(hdr) and hdr[p][0] == "id" else None
+                    gens = generic_names(hdr[:p])
+                if ("id", "for") in hdr:
+                    # trait impls: only the traits whose methods are translated
+                    f = hdr.index(("id", "for"))
+                    trait = [x[1] for x in hdr[p:f] if x[0] == "id"]
+                    if not trait or trait[-1] not in ("Automaton", "Ord", "PartialOrd"):
+                        i = c + 1
+                        continue
+                    rest = hdr[f + 1:]
+                    if rest and rest[0] == ("op", "&"):
+                        tyname = "Ref"                  # impl<T: Automaton> Automaton for &T
+                    else:
+                        tyname = rest[0][1] if rest and rest[0][0] == "id" else None
+                else:
+                    tyname = hdr[p][1] if p < len(hdr) and hdr[p][0] == "id" else None
+                old = self.cur_generics
+                self.cur_generics = gens
                 self._scan(j + 1, c, tyname)
+                self.cur_generics = old
                 i = c + 1
                 continue
             if k == "id" and v == "fn" and t[i + 1][0] == "id":
@@ -208,7 +301,9 @@ class FileIndex:
                     ret = ret[1:]
                 if ("id", "where") in ret:
                     ret = ret[:ret.index(("id", "where"))]
-                self.fns.setdefault((owner, name), FnItem(name, owner, params, ret, t[q + 1:bc]))
+                it = FnItem(name, owner, params, ret, t[q + 1:bc])
+                it.generics = list(self.cur_generics)
+                self.fns.setdefault((owner, name), it)
                 i = bc + 1
                 continue
             if k == "op" and v == "{":
@@ -374,7 +469,18 @@ class P:
                 e = None if self.peek() == ("op", ";") or self.peek() == ("op", "}") else self.expr()
                 self.accept("op", ";")
                 return ("return", e)
-            if k == "id" and v in ("for", "while", "loop"):
+            if k == "id" and v == "for":
+                self.next()
+                pat = self.for_pattern()
+                self.expect("id", "in")
+                it = self.expr(nostruct=True, norange=True)
+                if self.accept("op", ".."):
+                    hi = self.expr(nostruct=True, norange=True)
+                    it = ("range", it, hi)
+                self.expect("op", "{")
+                blk = self.block()
+                return ("for", pat, it, blk)
+            if k == "id" and v in ("while", "loop"):
                 raise Untranslatable("loop")
             e = self.expr(stmt=True)
             if self.peek()[0] == "op" and (self.peek()[1] == "=" or self.peek()[1] in COMPOUND):
@@ -390,8 +496,23 @@ class P:
                 return ("expr", e)       # block-like expression statement without ';'
             raise Untranslatable("statement at %s" % (self.peek(),))
 
+    def for_pattern(self):
+        """i | _ | &b | (i, &b) | (i, b)  ->  list of names (None for _)"""
+        def one():
+            self.accept("op", "&")
+            self.accept("id", "mut")
+            n = self.expect("id")
+            return None if n == "_" else n
+        if self.accept("op", "("):
+            names = []
+            while not self.accept("op", ")"):
+                names.append(one())
+                self.accept("op", ",")
+            return names
+        return [one()]
+
     # ---- expressions
-    def expr(self, level=0, stmt=False, nostruct=False):
+    def expr(self, level=0, stmt=False, nostruct=False, norange=False):
         if level == len(BIN_PREC):
             return self.cast(stmt, nostruct)
         l = self.expr(level + 1, stmt, nostruct)
@@ -419,6 +540,19 @@ class P:
             return ("un", "!", self.unary(nostruct))
         if self.accept("op", "-"):
             raise Untranslatable("unary minus")
+        if self.peek() == ("op", "|"):
+            self.next()
+            names = []
+            while not self.accept("op", "|"):
+                self.accept("op", "&")
+                self.accept("id", "mut")
+                names.append(self.expect("id"))
+                if self.accept("op", ":"):
+                    self.type_tokens()
+                self.accept("op", ",")
+            return ("closure", names, self.expr())
+        if self.accept("id", "move"):
+            return self.unary(nostruct)
         return self.postfix(nostruct)
 
     def args(self):
@@ -464,20 +598,19 @@ class P:
                 while self.accept("op", "::"):
                     path.append(self.expect("id"))
                 if self.accept("op", "("):
-                    depth = 1
-                    while depth:
-                        x = self.next()
-                        if x == ("op", "("):
-                            depth += 1
-                        elif x == ("op", ")"):
-                            depth -= 1
-                        elif x[0] == "eof":
-                            raise Untranslatable("pattern")
-                    alts.append(("ctor", path))
+                    names = []
+                    while not self.accept("op", ")"):
+                        self.accept("op", "&")
+                        self.accept("id", "ref")
+                        self.accept("id", "mut")
+                        n = self.expect("id")
+                        names.append(None if n == "_" else n)
+                        self.accept("op", ",")
+                    alts.append(("ctor", path, names))
                 elif len(path) == 1:
                     alts.append(("bind", v))
                 else:
-                    alts.append(("ctor", path))
+                    alts.append(("ctor", path, []))
             else:
                 raise Untranslatable("pattern %s %s" % (k, v))
             if not self.accept("op", "|"):
@@ -494,7 +627,11 @@ class P:
                 e = ("unit",)
             else:
                 e = self.expr()
-                if self.peek() == ("op", ","):
+                if self.accept("op", ".."):
+                    hi = self.expr()
+                    self.expect("op", ")")
+                    e = ("range", e, hi)
+                elif self.peek() == ("op", ","):
                     items = [e]
                     while self.accept("op", ","):
                         if self.peek() == ("op", ")"):
@@ -508,6 +645,23 @@ class P:
         elif k == "op" and v == "{":
             s, t = self.block()
             e = ("block", s, t)
+        elif k == "op" and v == "[":
+            if self.accept("op", "]"):
+                e = ("array", [])
+            else:
+                first = self.expr()
+                if self.accept("op", ";"):
+                    n = self.expr()
+                    self.expect("op", "]")
+                    e = ("arrayrep", first, n)
+                else:
+                    items = [first]
+                    while self.accept("op", ","):
+                        if self.peek() == ("op", "]"):
+                            break
+                        items.append(self.expr())
+                    self.expect("op", "]")
+                    e = ("array", items)
         elif k == "id" and v == "if":
             e = self.if_expr()
         elif k == "id" and v == "match":
@@ -567,13 +721,24 @@ class P:
                     raise Untranslatable("field")
             elif self.peek() == ("op", "["):
                 self.next()
+                if self.accept("op", ".."):
+                    hi = None if self.peek() == ("op", "]") else self.expr()
+                    self.expect("op", "]")
+                    e = ("slice", e, None, hi)
+                    continue
                 ix = self.expr()
-                if self.peek()[0] == "op" and self.peek()[1] in ("..", "..="):
-                    raise Untranslatable("slice range")
+                if self.accept("op", ".."):
+                    hi = None if self.peek() == ("op", "]") else self.expr()
+                    self.expect("op", "]")
+                    e = ("slice", e, ix, hi)
+                    continue
+                if self.peek() == ("op", "..="):
+                    raise Untranslatable("inclusive slice range")
                 self.expect("op", "]")
                 e = ("index", e, ix)
             elif self.peek() == ("op", "?"):
-                raise Untranslatable("? operator")
+                self.next()
+                e = ("try", e)
             else:
                 return e
 
@@ -628,7 +793,7 @@ def parse_params(toks):
             out.append(("self", kind))
             continue
         q = 0
-        if p[q] == ("id", "mut"):
+        while p[q] in (("id", "mut"), ("op", "&")):
             q += 1
         name = p[q][1]
         if p[q + 1] != ("op", ":"):
